@@ -352,3 +352,21 @@ reg("C21",
     "any_space basis). Known: evaluator listed before a quadrature shape; "
     "cross2d stencil mixed with another stencil type (twins pass).",
     "DESIGN.md §5 C21")
+
+reg("C25",
+    "execution of generated GOcean loop nests against a mock grid with "
+    "probe kernels that log every visit",
+    "For every index-offset x grid-point-type x iteration-space combination "
+    "(built-in and user-defined from generated config files) and grid sizes "
+    "1-7, the generated PSy layer is compiled with a mock dl_esm_inf and "
+    "probe kernels; the visit log must equal (i) the config expressions "
+    "evaluated by my own evaluator for user-defined spaces, (ii) exactly the "
+    "designated field's region for built-in spaces with default bounds, "
+    "(iii) containment rules under constant loop bounds, and (iv) be "
+    "unchanged (sets and per-point kernel order) by loop fusion, OpenMP "
+    "(1 and 4 threads), OpenACC and extraction histories.",
+    "The real dl_esm_inf is absent: the mock is the trusted base for (ii) "
+    "('the right field's region is used', not that the region is physically "
+    "right). Known: go_every ignores a user-defined space; fusion across "
+    "different index offsets.",
+    "DESIGN.md §5 C25")
